@@ -372,8 +372,8 @@ func cmdCheck(prop, tier, only string, trace bool, logDir string, noReplay, verb
 				if ok {
 					validated++
 				} else {
-					os.MkdirAll(filepath.Join(verifDir, "evidence/replays"), 0o755)
-					wp := filepath.Join(verifDir, "evidence/replays", fmt.Sprintf("%s-%s-witness-%d.json", prop, h.Name, i))
+					os.MkdirAll(filepath.Join(evidenceDir(), "replays"), 0o755)
+					wp := filepath.Join(evidenceDir(), "replays", fmt.Sprintf("%s-%s-witness-%d.json", prop, h.Name, i))
 					wb, _ := json.MarshalIndent(map[string]any{"property": prop, "harness": h.Name, "tier": tier, "kind": "witness", "covers": w.Covers, "values": w.Inputs}, "", " ")
 					os.WriteFile(wp, wb, 0o644)
 					fmt.Printf("INCONCLUSIVE property=%s harness=%s witness %d does not replay natively (engine/stub mismatch): covers sym=%v native=%v panic=%v fails=%v unreal=%v %s\n",
@@ -406,8 +406,8 @@ func cmdCheck(prop, tier, only string, trace bool, logDir string, noReplay, verb
 				continue
 			}
 			nviol++
-			os.MkdirAll(filepath.Join(verifDir, "evidence/replays"), 0o755)
-			path := filepath.Join(verifDir, "evidence/replays", fmt.Sprintf("%s-%s-%d.json", prop, h.Name, nviol))
+			os.MkdirAll(filepath.Join(evidenceDir(), "replays"), 0o755)
+			path := filepath.Join(evidenceDir(), "replays", fmt.Sprintf("%s-%s-%d.json", prop, h.Name, nviol))
 			cex := map[string]any{"property": prop, "harness": h.Name, "tier": tier, "kind": v.Kind, "label": v.Label, "site": v.Site,
 				"msg": v.Msg, "stack": v.Stack, "covers": v.Covers, "prefix": v.Prefix, "values": v.Inputs, "repo_head": repoHead()}
 			b, _ := json.MarshalIndent(cex, "", " ")
@@ -504,9 +504,9 @@ func cmdCheck(prop, tier, only string, trace bool, logDir string, noReplay, verb
 		},
 		"assumptions": assumptions, "wall_s": round1(time.Since(t0).Seconds()), "violations": nviol,
 	}
-	os.MkdirAll(filepath.Join(verifDir, "evidence"), 0o755)
+	os.MkdirAll(evidenceDir(), 0o755)
 	b, _ := json.MarshalIndent(ev, "", " ")
-	os.WriteFile(filepath.Join(verifDir, "evidence", prop+".json"), b, 0o644)
+	os.WriteFile(filepath.Join(evidenceDir(), prop+".json"), b, 0o644)
 	if exit == 1 {
 		return 1
 	}
@@ -557,4 +557,12 @@ func subsetOf(a, b []string) bool {
 		}
 	}
 	return true
+}
+
+// evidenceDir is /verif/evidence; seeded-change trials (tools/seedtest.sh) redirect it.
+func evidenceDir() string {
+	if d := os.Getenv("GOSYM_EVIDENCE_DIR"); d != "" {
+		return d
+	}
+	return filepath.Join(verifDir, "evidence")
 }
